@@ -18,6 +18,9 @@ enum FontSrc {
     BuiltIn(usize),  // ANSI font page
     EditedDefault,   // the glyphs of the default font under another name, one glyph edited in place (the cached checksum is stale)
     Sauce(usize),    // SAUCE font index
+    /// height, kind: glyph 0 starts with the PSF1 (kind 0) / PSF2 (kind 1) magic number, kind 2: PSF1 magic followed by a mode / charsize
+    /// pair that is consistent with the length of the data
+    Magic(u8, u8),
 }
 
 fn make_font(s: &FontSrc) -> Option<BitFont> {
@@ -44,6 +47,19 @@ fn make_font(s: &FontSrc) -> Option<BitFont> {
             Some(f)
         }
         FontSrc::Sauce(i) => BitFont::from_sauce_name(SAUCE_FONT_NAMES[*i]).ok(),
+        FontSrc::Magic(h, kind) => {
+            let mut d = font_glyph_bytes(&synth_font("x", *h, 77));
+            let magic: &[u8] = match kind {
+                0 => &[0x36, 0x04],
+                1 => &[0x72, 0xb5, 0x4a, 0x86],
+                _ => &[0x36, 0x04, 0x00, *h],
+            };
+            if magic.len() > d.len() {
+                return None;
+            }
+            d[..magic.len()].copy_from_slice(magic);
+            Some(BitFont::create_8(format!("magic {h} {kind}"), 8, *h, &d))
+        }
     }
 }
 
@@ -183,13 +199,16 @@ fn check_bitfont(src: &FontSrc, ctx: &mut Ctx) {
     }
     r.cmp("raw/create_8", &f, Some(&BitFont::create_8("x", 8, h as u8, &raw)));
     r.cmp("raw/from_basic", &f, Some(&BitFont::from_basic(8, h as u8, &raw)));
+    // (from_bytes guesses the container from the first bytes: raw data that starts like a PSF file is ambiguous for it by design)
     if !is_psf_magic(&raw) {
         match catch(|| BitFont::from_bytes("raw", &raw)) {
             Ok(Ok(g)) => r.cmp("raw/from_bytes", &f, Some(&g)),
             Ok(Err(e)) => r.fail("raw/from_bytes", "own-output-refused", &e.to_string()),
             Err(p) => r.fail("raw/from_bytes", "load", &format!("PANIC {}", p.signature())),
         }
-        // DCS font loading sequence into slots 0, 1, 42 and 255
+    }
+    {
+        // DCS font loading sequence into slots 0, 1, 42 and 255: the payload is raw glyph data by definition, whatever it starts with
         for slot in [0usize, 1, 42, 255] {
             let seq = f.encode_as_ansi(slot);
             let mut t = Term::new(Emu::Ansi(0), 80, 25);
@@ -209,7 +228,7 @@ fn check_bitfont(src: &FontSrc, ctx: &mut Ctx) {
     }
     let other = make_font(&FontSrc::Synth(h as u8, 11)).unwrap();
     // a slot is redefined within one session: F, then another font of the same height, then F again, then a font of another height
-    if !is_psf_magic(&raw) && !is_psf_magic(&other.convert_to_u8_data()) {
+    {
         let third = make_font(&FontSrc::Synth(if h == 16 { 14 } else { 16 }, 5)).unwrap();
         for slot in [0usize, 7, 9, 11] {
             let mut t = Term::new(Emu::Ansi(0), 80, 25);
@@ -232,6 +251,7 @@ fn check_bitfont(src: &FontSrc, ctx: &mut Ctx) {
             }
         }
     }
+    check_used_page(&f, &mut r);
     // embedded in files
     for (ext, two) in [("xb", false), ("xb", true), ("adf", false), ("idf", false), ("icy", false), ("icy", true)] {
         for compress in [false, true] {
@@ -260,6 +280,34 @@ fn check_bitfont(src: &FontSrc, ctx: &mut Ctx) {
                     }
                 },
             }
+        }
+    }
+}
+
+/// ADF / IDF embed one font: the one the cells use. A document whose cells all sit on font page 1 (slot 0 holds the default font)
+/// is either refused or comes back with the font of page 1
+fn check_used_page(f: &BitFont, r: &mut Report) {
+    for ext in ["adf", "idf", "xb"] {
+        let mut doc = new_buffer(80, 2, IceMode::Ice);
+        doc.set_font(1, f.clone());
+        for y in 0..2 {
+            for x in 0..80 {
+                put(&mut doc, x, y, &Cell::new((65 + x % 26) as u32, 7, 1).page(1));
+            }
+        }
+        let name = format!("{ext}/only font page 1 used");
+        match save(&doc, ext, false) {
+            Err(e) if e.starts_with("PANIC") => r.fail(&name, "save", &e),
+            Err(_) => {
+                r.ctx.count("refused", 1);
+            }
+            Ok(bytes) => match load(ext, &bytes) {
+                Err(e) => r.fail(&name, "own-output-refused", &e),
+                Ok(b) => {
+                    let page = b.get_char((0, 0)).get_font_page();
+                    r.cmp(&name, f, b.get_font(page));
+                }
+            },
         }
     }
 }
@@ -516,6 +564,11 @@ fn build(_prop: &str, tier: &str) -> Fonts {
         jobs.push(Job::Bit(FontSrc::BuiltIn(p)));
     }
     jobs.push(Job::Bit(FontSrc::EditedDefault));
+    for h in 1..=32u8 {
+        for kind in 0..3u8 {
+            jobs.push(Job::Bit(FontSrc::Magic(h, kind)));
+        }
+    }
     for i in 0..SAUCE_FONT_NAMES.len() {
         jobs.push(Job::Bit(FontSrc::Sauce(i)));
     }
